@@ -8,7 +8,7 @@
     values), every combination of options, every grace period and interval, every fault plan and
     cancellation point, every clock. [file s k] is the value of the terminal key k.
     [jt o clk s0 k] = deleting k is justified at one of the readings: exists i, justified o (clk i) s0 k. *)
-From CM Require Import Lib.Str Lib.CleanSyntax Gen.Consts Clean.Model Clean.Proofs Clean.Prog Clean.Check Clean.SpecProofs Clean.Concurrent Clean.Interfere Clean.Effective Clean.EffectiveCerts Clean.Kill Clean.InterfereSeq Clean.ConcurrentKill Clean.ConcurrentForeign Clean.Final Clean.Final2.
+From CM Require Import Lib.Str Lib.CleanSyntax Gen.Consts Clean.Model Clean.Proofs Clean.Prog Clean.Check Clean.SpecProofs Clean.Concurrent Clean.Interfere Clean.Effective Clean.EffectiveCerts Clean.Kill Clean.InterfereSeq Clean.ConcurrentKill Clean.ConcurrentForeign Clean.Final Clean.Final2 Clean.Final3.
 From Coq Require Import String Ascii.
 Open Scope Z_scope.
 
@@ -565,6 +565,23 @@ Theorem C18_killed_then_next_lock_discipline : forall e1 n o1 clk1 e2 o2 clk2 a0
   under_lock None (lock_trace (killed_then_next_case e1 n o1 clk1 e2 o2 clk2 a0 a1 b0 b1 s0)) = true.
 Proof. intros e1 n o1 clk1 e2 o2 clk2 a0 a1 b0 b1 s0 log1. exact (killed_then_next_lock_discipline e1 n o1 clk1 e2 o2 clk2 a0 a1 b0 b1 s0). Qed.
 Print Assumptions C18_killed_then_next_lock_discipline.
+
+(** what later cleanings DO finish after a death (Clean/Final3.v): a cleaning under any environment without partial Deletes -- in
+    particular the model of a killed cleaner -- only removes whole subtrees and writes the record, so the hypotheses of the
+    effectiveness theorem carry over to the storage it leaves ([clean_preserves]); the next fault-free cleaning removes X.crt, X.key,
+    X.json of every certificate whose X.crt is STILL THERE and that is expired for the grace period at every reading of its clock
+    (the counterpart of C18_orphans_after_kill_refuted at the end of this file: what is lost for good are the assets whose X.crt the
+    dead cleaner had already deleted) *)
+Theorem C18_next_cleaning_finishes_what_is_left : forall e1 n o1 clk1 e2 o2 clk2 s0 ik sk a v c,
+  pfaults e1 = [] -> no_faults e2 -> do_certs o2 = true -> interval o2 <= 0 -> crt_wf s0 ->
+  notfile s0 spec_certs -> child spec_certs ik -> child ik sk -> notfile s0 ik -> notfile s0 sk ->
+  child sk a -> seqb (path_ext a) spec_ext_crt = true ->
+  let s1 := sto (snd (clean (with_kill e1 n) o1 clk1 s0)) in
+  file s1 a = Some (v, c) -> (forall i, spec_expired (clk2 i) (grace o2) c = true) ->
+  forall x, In x [a; trim_suffix spec_ext_crt a ++ spec_ext_key; trim_suffix spec_ext_crt a ++ spec_ext_json] ->
+  forall k, covers x k = true -> lookup (sto (snd (clean e2 o2 clk2 s1))) k = None.
+Proof. exact next_cleaning_finishes_what_is_left. Qed.
+Print Assumptions C18_next_cleaning_finishes_what_is_left.
 
 (** ** who cleans, read from the source on every run: nothing inside the package calls CleanStorage (there is no
     timer path in certmagic itself -- [Cache.maintainAssets] renews and staples only; the application, e.g. Caddy's
@@ -1130,4 +1147,33 @@ Example ex_monitor_under_interference :
   touches spec_last_clean (FPut ex_renewed (File 77 (crt (T + 90 * day)))) = false /\
   spec_ok (model_case_i ex_env [(8%nat, FPut ex_renewed (File 77 (crt (T + 90 * day))))] ex_opts0 (at_ T) T T ex_fs_store 0) = true /\
   spec_ok (model_case_i ex_env [(10%nat, FPut ex_renewed (File 77 (crt (T + 90 * day))))] ex_opts0 (at_ T) T T ex_fs_store 0) = false.
+Proof. vm_compute. repeat split; reflexivity. Qed.
+
+(** what does NOT hold (and what the code really does): "whatever a dead cleaner left undone, later cleanings finish". The assets
+    are deleted in the order X.crt, X.key, X.json; a cleaner that dies after Delete(X.crt) leaves X.key and X.json, and no later
+    cleaning -- fault-free, as often as one likes -- looks at a site without X.crt: the private key of a long-expired certificate
+    stays for good (witness: the example storage, death when call 12 begins, two complete cleanings afterwards) *)
+Theorem C18_orphans_after_kill_refuted : exists e n o clk s0 k,
+  kill_at e = None /\ no_faults e /\
+  (exists v c na, file s0 (k ++ spec_ext_crt) = Some (v, c) /\ as_cert c = Some na /\ forall i, spec_expired (clk i) (grace o) c = true) /\
+  let s1 := sto (cleank e n o clk s0) in
+  let s2 := sto (snd (clean e o clk s1)) in
+  let s3 := sto (snd (clean e o clk s2)) in
+  lookup s1 (k ++ spec_ext_crt) = None /\ lookup s3 (k ++ spec_ext_key) <> None /\ lookup s3 (k ++ spec_ext_key) = lookup s0 (k ++ spec_ext_key).
+Proof.
+  exists ex_env, 12%nat, ex_opts_ni, (at_ T), ex_store2, (s2k "certificates/iss/dead.example/dead.example").
+  split; [reflexivity|]. split; [repeat split|]. split.
+  - exists 3, (crt (T - 31 * day)), (T - 31 * day). split; [reflexivity|]. split; [reflexivity | intros i; reflexivity].
+  - vm_compute. split; [reflexivity|]. split; [discriminate | reflexivity].
+Qed.
+Print Assumptions C18_orphans_after_kill_refuted.
+
+
+(** ... whereas a cleaner that dies BEFORE it deleted X.crt (here: when its call 9 begins) leaves nothing the next one cannot finish:
+    hypotheses of C18_next_cleaning_finishes_what_is_left, and X.key of the dead site is gone after the follow-up *)
+Example ex_next_cleaning_finishes :
+  let s1 := sto (snd (clean (with_kill ex_env 9) ex_opts_ni (at_ T) ex_store2)) in
+  pfaults ex_env = [] /\ crt_wfb ex_store2 = true /\
+  file s1 (s2k "certificates/iss/dead.example/dead.example.crt") = Some (3, crt (T - 31 * day)) /\
+  lookup (sto (snd (clean ex_env ex_opts_ni (at_ T) s1))) (s2k "certificates/iss/dead.example/dead.example.key") = None.
 Proof. vm_compute. repeat split; reflexivity. Qed.
